@@ -176,20 +176,25 @@ func (w *worker) call(name string, f func()) (returned bool, panicked string) {
 		}()
 		f()
 	}()
-	deadline := time.Now().Add(w.callTmo)
-	t := time.NewTimer(5 * time.Second)
+	// the limit is in effective time (effclock.go): a starved worker is not a hanging call
+	clk := newEffClock("self")
+	t := time.NewTimer(time.Second)
 	defer t.Stop()
+	lastBeat := time.Now()
 	for {
 		select {
 		case pv := <-done:
 			return true, pv
 		case <-t.C:
-			if time.Now().After(deadline) {
+			if clk.Elapsed() >= w.callTmo {
 				w.tainted = true
 				return false, ""
 			}
-			w.line("T %d %s", w.idx, name) // heartbeat: the call is still running
-			t.Reset(5 * time.Second)
+			if time.Since(lastBeat) >= 5*time.Second {
+				w.line("T %d %s", w.idx, name) // heartbeat: the call is still running
+				lastBeat = time.Now()
+			}
+			t.Reset(time.Second)
 		}
 	}
 }
